@@ -59,6 +59,40 @@ def gridUnguarded (ops : List Ops) : List String :=
     let (ty, fn, toks, grid) := o
     if ty == "dagaz.Module" && grid && !takes toks "state.mutex" then some fn else none
 
+/-! ### writes need the write lock -/
+
+abbrev Writes := String × String × List String
+
+/-- the methods that write a guarded field (assign, increment, delete from - directly, through an index, a sub-field or
+    a local bound to it) without taking the guarding mutex in write mode: `m.Lock`, not `m.RLock` -/
+def writesWithoutWriteLock (facts : List Fact) (writes : List Writes) : List (String × String × String) :=
+  writes.flatMap fun (w : Writes) =>
+    let (ty, fn, fields) := w
+    if exempt.contains (ty, fn) then [] else
+    let ops := ((facts.find? fun (f : Fact) => f.1 == ty && f.2.1 == fn).map fun f => f.2.2.1).getD []
+    (guards.filter fun g => g.ty == ty && g.fields.any fields.contains && !ops.contains (g.mutex ++ ".Lock")).map fun g => (ty, fn, g.mutex)
+
+/-- how the dagaz handlers name the grid's methods -/
+def gridCalls : List (String × String) := [
+  ("m.state.SpatialPartition.InsertQuad", "InsertQuad"), ("m.state.SpatialPartition.IntersectQuad", "IntersectQuad"),
+  ("m.state.SpatialPartition.GetRegion", "GetRegion"), ("m.state.SpatialPartition.GetDebugInfo", "GetDebugInfo")]
+
+/-- what a grid method writes, itself or through the methods it calls on the grid (two levels deep) -/
+def gridWrites (writes : List Writes) (self : List (String × String × List String)) (fn : String) : List String :=
+  let own (g : String) : List String := ((writes.find? fun (w : Writes) => w.1 == "dagaz.RegularGrid" && w.2.1 == g).map fun w => w.2.2).getD []
+  let callees (g : String) : List String := ((self.find? fun c => c.1 == "dagaz.RegularGrid" && c.2.1 == g).map fun c => c.2.2).getD []
+  let l1 := callees fn
+  let l2 := l1.flatMap callees
+  ([fn] ++ l1 ++ l2).flatMap own
+
+/-- the dagaz handlers that hold the state's mutex in read mode only and call a grid method that writes the grid: two
+    such requests at once would both write it -/
+def gridWritersUnderReadLock (facts : List Fact) (writes : List Writes) (self : List (String × String × List String)) : List (String × String) :=
+  facts.flatMap fun (f : Fact) =>
+    let (ty, fn, ops, _, calls, _) := f
+    if ty != "dagaz.Module" || ops.contains "state.mutex.Lock" then [] else
+    (gridCalls.filter fun gc => calls.contains gc.1 && !(gridWrites writes self gc.2).isEmpty).map fun gc => (fn, gc.2)
+
 /-! ### nesting -/
 
 /-- edges `held → acquired` inside one method; closures are separate scopes (they run later, on their own stack) -/
